@@ -128,6 +128,38 @@ let () =
             let fw = (match List.assoc_opt "fw" kvs with Some s -> List.map (fun x -> n_of_int (int_of_string x)) (split ',' s) | None -> []) in
             print_result (run_orders_w cfg s_nodes d_nodes anc fw ans bits (pick full_s lsp) (pick full_d ldp) ft)
          | _ -> print_result (run_top cfg s_nodes d_nodes anc ans bits ex ft))
+     | "SPEC" :: rest ->
+        (* SPEC R <nodes> E R <nodes> E ... J src=<i> dst=<j> cfg=.. anc=.. ans=.. ex=.. J ... *)
+        let rec roots i acc = function
+          | "R" :: r -> let (nodes, r) = parse_nodes r [] in roots (i + 1) ((nat_of_int i, nodes) :: acc) r
+          | r -> (List.rev acc, r) in
+        let (st, r) = roots 0 [] rest in
+        let rec jobs acc cur = function
+          | [] -> List.rev (match cur with None -> acc | Some c -> List.rev c :: acc)
+          | "J" :: r -> jobs (match cur with None -> acc | Some c -> List.rev c :: acc) (Some []) r
+          | t :: r -> jobs acc (match cur with None -> None | Some c -> Some (t :: c)) r in
+        let mk toks =
+          let kvs = kv toks in
+          let get k = List.assoc k kvs in
+          let cfgl = Array.of_list (String.split_on_char ',' (get "cfg")) in
+          { j_src = nat_of_int (int_of_string (get "src")); j_dst = nat_of_int (int_of_string (get "dst"));
+            j_cfg = { cf_diff = cfgl.(0) = "1"; cf_fl = (if cfgl.(1) = "W" then Windows else Unix);
+                      cf_b = { b_newer = beh_of cfgl.(2); b_older = beh_of cfgl.(3); b_same = beh_of cfgl.(4); b_entry = beh_of cfgl.(5) };
+                      cf_root = beh_of cfgl.(6); cf_dry = cfgl.(7) = "1" };
+            j_anc = (match get "anc" with "ok" -> AncOk | "missing" -> AncMissing | _ -> AncBlocked);
+            j_ans = List.map (function "o1" -> AnsOnce true | "o0" -> AnsOnce false | "a1" -> AnsAll true | "a0" -> AnsAll false | _ -> AnsCancel) (split ',' (get "ans"));
+            j_bits = []; j_ex = List.map path_of_hex (split ';' (get "ex"));
+            j_ft = { ft_dest = []; ft_src = []; ft_lag = O; ft_stop = None } } in
+        let js = List.map mk (jobs [] None r) in
+        let sr = run_spec js st in
+        Printf.printf "ok=%d ran=%d oks=%s nerrs=%s skips=%s stats=%s" (if sr.sp_ok then 1 else 0) (List.length sr.sp_runs)
+          (cat "," (List.map (fun r -> if r.r_ok then "1" else "0") sr.sp_runs))
+          (cat "," (List.map (fun r -> string_of_int (List.length r.r_errs)) sr.sp_runs))
+          (cat "," (List.map (fun r -> string_of_int (List.length r.r_skipped)) sr.sp_runs))
+          (cat "/" (List.map (fun r -> let st = r.r_stats in String.concat "," (List.map (fun n -> string_of_int (int_of_n n))
+              [st.st_files_deleted; st.st_folders_deleted; st.st_symlinks_deleted; st.st_files_copied; st.st_folders_created; st.st_symlinks_copied])) sr.sp_runs));
+        List.iteri (fun i _ -> Printf.printf " fs%d=%s" i (cat ";" (List.sort compare (List.map node_s (sget sr.sp_store (nat_of_int i)))))) st;
+        print_newline ()
      | "LIST" :: rest ->
         let kvs = kv rest in
         let rec drop = function "S" :: r -> r | _ :: r -> drop r | [] -> failwith "no S" in
